@@ -164,7 +164,7 @@ def run(ck):
                     cur = par
                 ck.ob("Q3", f.qualname, "clock / hash value flows only into a comment string or a directory name", f.loc(node), ok,
                       "%s used in %s" % (dotted, ast.unparse(parents.get(cur, cur))[:120]))
-    ck.floor("ambient-source call sites classified", n_amb, 6)
+    ck.floor("ambient-source call sites classified", n_amb, 2)
     ck.exhaustive = True
     ck.assume("numpy / scipy numerical routines are pure functions of their arguments")
     ck.note("I/O methods (save/load/safe_*, from_csv, from_frame, Membrane.load) and plotting are not modelling calls and are not judged; "
